@@ -16,6 +16,8 @@ extern "C" { void skv_mon_fail_at(unsigned long k); void skv_mon_reset(void); in
 struct CpuModel {
     uint32_t maxleaf = 0x16, l1edx = 0, l1ecx = 0, l7max = 0, l7ebx[3] = {0, 0, 0}, xcr0 = 7;
     bool amd = false;              // out-of-range leaves: AMD returns zeros, Intel the data of the highest basic leaf
+    uint32_t vendor[3] = {0x756e6547, 0x49656e69, 0x6c65746e};   // leaf 0 EBX, EDX, ECX ("GenuineIntel")
+    uint32_t l1eax = 0x000906ea, l1ebx = 0x00100800;             // family / model / stepping, brand / APIC data
     uint32_t garbage_ecx = 0;      // delivered as the sub-leaf whenever the code uses plain __cpuid
     uint32_t hi_regs[4] = {0, 0, 0, 0};   // data of the highest basic leaf (for Intel out-of-range behaviour)
     bool xgetbv_illegal = false;   // set when XGETBV is executed although OSXSAVE is clear
@@ -29,8 +31,8 @@ static void model_cpuid(uint32_t leaf, uint32_t subleaf, int subleaf_valid, uint
     regs[0] = regs[1] = regs[2] = regs[3] = 0;
     if (leaf >= 0x80000000u) return;
     if (leaf > c.maxleaf) { if (!c.amd) { leaf = c.maxleaf; if (leaf != 0 && leaf != 1 && leaf != 7) { memcpy(regs, c.hi_regs, 16); return; } } else return; }
-    if (leaf == 0) { regs[0] = c.maxleaf; regs[1] = 0x756e6547; regs[2] = 0x6c65746e; regs[3] = 0x49656e69; }
-    else if (leaf == 1) { regs[0] = 0x000906ea; regs[1] = 0x00100800; regs[2] = c.l1ecx; regs[3] = c.l1edx; }
+    if (leaf == 0) { regs[0] = c.maxleaf; regs[1] = c.vendor[0]; regs[2] = c.vendor[2]; regs[3] = c.vendor[1]; }
+    else if (leaf == 1) { regs[0] = c.l1eax; regs[1] = c.l1ebx; regs[2] = c.l1ecx; regs[3] = c.l1edx; }
     else if (leaf == 7) { if (subleaf <= c.l7max) { regs[0] = subleaf == 0 ? c.l7max : 0; regs[1] = c.l7ebx[subleaf < 3 ? subleaf : 2]; } }
     else memcpy(regs, c.hi_regs, 16);
 }
@@ -86,6 +88,15 @@ struct C13 : Harness {
                 c.set("maxleaf", maxleaf).set("l1edx", edx).set("l1ecx", ecx).set("l7max", *irange(0, 2)).set("l7ebx0", ebx0)
                     .set("l7ebx1", (long long)*rc::gen::arbitrary<uint32_t>()).set("l7ebx2", (long long)*rc::gen::arbitrary<uint32_t>())
                     .set("xcr0", xcr0).set("amd", *irange(0, 1)).set("hi", *gbytes(16));
+                // who made the CPU and which one it is must not matter: vendor string (leaf 0) and family / model / stepping
+                // (leaf 1 EAX) of real parts - Intel Skylake / Haswell / Atom, AMD Excavator / Zen / Zen+ / Zen 2 / Zen 3, Hygon,
+                // Centaur / Zhaoxin - or arbitrary bytes
+                static const char *vendors[] = {"GenuineIntel", "AuthenticAMD", "HygonGenuine", "CentaurHauls", "  Shanghai  ", "GenuineIntel"};
+                Bytes vend(12);
+                if (*chance(85)) { const char *v = vendors[*irange(0, 5)]; vend.assign(v, v + 12); } else vend = *gbytes(12);
+                uint32_t sig = *chance(80) ? (uint32_t)*rc::gen::element<uint32_t>(0x000906eau, 0x000306c3u, 0x000506c9u, 0x00660f01u, 0x00800f11u, 0x00800f82u, 0x00870f10u, 0x00a20f10u, 0x00900f02u, 0x000006fbu, 0x00000f43u)
+                                             : (uint32_t)*rc::gen::arbitrary<uint32_t>();
+                c.set("vendor", vend).set("l1eax", (long long)sig).set("l1ebx", (long long)*rc::gen::arbitrary<uint32_t>());
                 p.push_back(c);
             }
             int n = *irange(2, 8);
@@ -139,6 +150,7 @@ struct C13 : Harness {
         bool sse2 = maxleaf >= 1 && ((l1edx >> 26) & 1), osx = (l1ecx >> 27) & 1, avx = (l1ecx >> 28) & 1, bit5 = (ebx0 >> 5) & 1;
         bool avx2 = maxleaf >= 7 && osx && avx && (xcr0 & 6) == 6 && bit5;
         st.count(std::string("model/sse2=") + (sse2 ? "1" : "0") + "/avx2-usable=" + (avx2 ? "1" : "0"));
+        if (const Bytes *v = c.getb("vendor")) { std::string vs(v->begin(), v->end()); bool printable = true; for (char ch : vs) printable = printable && ch >= 32 && ch < 127; st.count("model/vendor=" + (printable ? vs : std::string("(arbitrary bytes)"))); }
         if (bit5 && !avx2) st.count(std::string("model/avx2-bit-set-but-unusable/") + (maxleaf < 7 ? "maxleaf<7" : !osx ? "no-osxsave" : !avx ? "no-avx" : "xcr0"));
         st.extra["calls"] += (double)(p.size() - 1);
         st.case_done(ser(p), !(sse2 && avx2));
@@ -153,6 +165,9 @@ struct C13 : Harness {
             cpu.maxleaf = (uint32_t)c.geti("maxleaf"); cpu.l1edx = (uint32_t)c.geti("l1edx"); cpu.l1ecx = (uint32_t)c.geti("l1ecx");
             cpu.l7max = (uint32_t)c.geti("l7max"); cpu.l7ebx[0] = (uint32_t)c.geti("l7ebx0"); cpu.l7ebx[1] = (uint32_t)c.geti("l7ebx1"); cpu.l7ebx[2] = (uint32_t)c.geti("l7ebx2");
             cpu.xcr0 = (uint32_t)c.geti("xcr0"); cpu.amd = c.geti("amd") != 0;
+            if (const Bytes *v = c.getb("vendor")) if (v->size() >= 12) memcpy(cpu.vendor, v->data(), 12);
+            if (c.has("l1eax")) cpu.l1eax = (uint32_t)c.geti("l1eax");
+            if (c.has("l1ebx")) cpu.l1ebx = (uint32_t)c.geti("l1ebx");
             const Bytes *hi = c.getb("hi"); if (hi && hi->size() >= 16) memcpy(cpu.hi_regs, hi->data(), 16);
             sse2 = cpu.maxleaf >= 1 && ((cpu.l1edx >> 26) & 1);
             bool osx = (cpu.l1ecx >> 27) & 1, avx = (cpu.l1ecx >> 28) & 1;
